@@ -629,6 +629,11 @@ harnesses! {
     p12_ramext_0_2 { prop: X12, feat: "c12", tier: thorough, mode: leaf, unwind: 6, caps: "drop=1,eq=1" } => |s| pass::ram_extent(s, 0, 2);
     p12_ramext_4_3 { prop: X12, feat: "c12", tier: thorough, mode: leaf, unwind: 6, caps: "drop=1,eq=1" } => |s| pass::ram_extent(s, 4, 3);
     p12_ramext_1_0 { prop: X12, feat: "c12", tier: thorough, mode: leaf, unwind: 6, caps: "drop=1,eq=1" } => |s| pass::ram_extent(s, 1, 0);
+    p06_reserve_tail { prop: X06, feat: "c06", tier: thorough, mode: leaf, unwind: 6, caps: "drop=1,eq=1" } => |s| pass::eeprom_small(s, 3, 2);
+    p06_reserve_dw { prop: X06, feat: "c06", tier: thorough, mode: leaf, unwind: 6, caps: "drop=1,eq=1" } => |s| pass::eeprom_small(s, 4, 2);
+    p02_overlap_code { prop: X02, feat: "c02", tier: thorough, mode: leaf, unwind: 6, caps: "drop=1,eq=1" } => |s| pass::overlap(s, 0);
+    p02_overlap_eeprom { prop: X02, feat: "c02", tier: thorough, mode: leaf, unwind: 6, caps: "drop=1,eq=1" } => |s| pass::overlap(s, 1);
+    p02_overlap_data { prop: X02, feat: "c02", tier: thorough, mode: leaf, unwind: 6, caps: "drop=1,eq=1" } => |s| pass::overlap(s, 2);
     p02_offsets { prop: X02, feat: "c02", tier: thorough, mode: leaf, unwind: 6, caps: "drop=1,eq=1" } => |s| pass::offsets_small(s);
     p06_wrongseg_0 { prop: X06, feat: "c06", tier: thorough, mode: leaf, unwind: 6, caps: "drop=1,eq=1" } => |s| pass::wrong_segment(s, 0);
     p06_wrongseg_1 { prop: X06, feat: "c06", tier: thorough, mode: leaf, unwind: 6, caps: "drop=1,eq=1" } => |s| pass::wrong_segment(s, 1);
